@@ -57,5 +57,8 @@ CLAIMED["C10"]["engine"] = "tsm/periodic driver"
 CLAIMED["C09"] = {"engine": "tsm/periodic driver + E3 schedule explorer", "text": "All pairs of (source pattern, target pattern) of small trees through the sequential target/source executor with the exact kernel, and the OpenMP target/source executor under the schedule explorer exactly as C03.", "design_ref": "DESIGN.md section 5 C09",
     "note": "as C01 and C03", "technique": "bounded-exhaustive enumeration of source/target shapes + stateless model checking of schedules under the mock task runtime"}
 
+CLAIMED["C18"] = {"engine": "tree driver + E3 schedule explorer", "text": "Counter-wrapped exact kernel on the enumerated trees (sequential) and on every explored schedule and worker assignment of the OpenMP executor; merged counters compared with the reference counts implied by the tree, results compared with the unwrapped kernel.", "design_ref": "DESIGN.md section 5 C18",
+    "note": "as C01 and C03; P2PTsm of the counter (target/source) is outside the property's stated executors", "technique": "bounded-exhaustive enumeration + stateless model checking of schedules and worker assignments under the mock task runtime"}
+
 _pending = "check not built yet in this round (planned, see DESIGN.md section 11); not claimed until it runs end to end"
-NOT_APPLICABLE = {p: _pending for p in ["C04", "C05", "C15", "C18", "C19"]}
+NOT_APPLICABLE = {p: _pending for p in ["C04", "C05", "C15", "C19"]}
